@@ -27,10 +27,9 @@ fn canonicalize_slice(
     };
 
     // Cap slice_length
-    let slice_length = if slice_offset + slice_length > vec_length {
-        vec_length - slice_offset
-    } else {
-        slice_length
+    let slice_length = match slice_offset.checked_add(slice_length) {
+        Some(slice_end) if slice_end <= vec_length => slice_length,
+        _ => vec_length - slice_offset,
     };
 
     (slice_offset as usize, slice_length as usize)
